@@ -21,6 +21,7 @@ mod c11;
 mod c12;
 mod recxof;
 mod prio3rec;
+mod poplar1rec;
 mod c13;
 mod c16;
 mod c19;
@@ -61,6 +62,7 @@ fn main() {
         ("c16", "run") => c16::run(stdin_lines()),
         ("c19", "record") => c19::record(rest),
         ("c06", "record") => c06::record(rest, stdin_lines()),
+        ("poplar1", "record") => poplar1rec::record(rest),
         ("c12", "replay") => c12::replay(rest[0].parse().unwrap(), stdin_lines()),
         (p, m) => {
             eprintln!("unknown property/mode {p} {m}");
